@@ -17,10 +17,6 @@ class Family:
         return len(ops) > 0
 
 
-def bump(stats, key, n=1):
-    stats[key] = stats.get(key, 0) + n
-
-
 # ------------------------------------------------------------------------------------------- time
 class TimeFamily(Family):
     name = "time"
@@ -216,7 +212,94 @@ class AmfAdvFamily(Family):
             yield ["amf.dec " + "".join(parts)]
 
 
-FAMILIES = {f.name: f for f in [TimeFamily(), AmfFamily(), AmfAdvFamily()]}
+# ------------------------------------------------------------------------------------------ chunk
+import gen_chunk as GC
+import itertools
+
+
+class ChunkFamily(Family):
+    name = "chunk"
+    timeout_s = 600
+    anchored = ["rtmp/src/chunk_io/serializer.rs", "rtmp/src/chunk_io/deserializer.rs"]
+    rule = ("one case = one serializer history (ser.msg / ser.setcs ops; alphabet built from header-relevant features: type ids "
+            "of all five csid classes, stream ids, timestamp moves {equal, +small, same delta again, falling, delta = 0xFFFFFF / "
+            "0xFFFFFE / > 2^24, absolute 0xFFFFFF edge, delta = previous absolute, wrap past 2^32, antipodal, random}, lengths "
+            "{0, 1, cs-1, cs, cs+1, 2cs, 3cs+1, same as previous, small}, both flags, chunk-size changes {1,2,3,4,5,127,128,129,"
+            "4096,65536,2^31-1,random}) followed, per property, by des.feedpk under drop masks and partitions (model vs real "
+            "deserializer on the real serializer's bytes) and the oracles !chunk.rt / !chunk.ref / !chunk.nonempty; seed-independent "
+            "part: all sequences of length ≤ 3 (quick: ≤ 2 plus a 1-in-5 sample of length 3) over a 38-symbol reduced alphabet, "
+            "with every drop mask; non-trivial = at least two accepted packets; distinct = distinct op text")
+
+    def tail_ops(self, pid, rng, drops, exhaustive_masks=False, total=0):
+        ops = []
+        n = len(drops)
+        all1 = "1" * max(n, 1)
+        if pid in ("C01", "C19", "C15"):
+            sz = GC.rand_sizes(rng, total)
+            ops += ["des.new", f"des.feedpk {all1} {sz}", f"!chunk.rt {all1} {sz}", f"!chunk.rt {all1} 1", "!chunk.nonempty"]
+            if total <= 3000:
+                ops += ["des.new", f"des.feedpk {all1} 1"]
+        if pid == "C07":
+            ops += [f"!chunk.ref {all1}", "des.new", f"des.feedpk {all1} all"]
+        if pid == "C08":
+            masks = []
+            k = [i for i, d in enumerate(drops) if d]
+            if exhaustive_masks and len(k) <= 4:
+                for bits in itertools.product("01", repeat=len(k)):
+                    m = list(all1)
+                    for i, bch in zip(k, bits):
+                        m[i] = bch
+                    masks.append("".join(m))
+            else:
+                masks = [GC.rand_mask(rng, drops) for _ in range(3)] + ["".join("0" if d else "1" for d in drops) or "1"]
+            for m in dict.fromkeys(masks):
+                sz = GC.rand_sizes(rng, total)
+                ops += ["des.new", f"des.feedpk {m} {sz}", f"!chunk.rt {m} {sz}", f"!chunk.ref {m}"]
+        return ops
+
+    def gen(self, rng, tier, pid, stats):
+        if pid == "C19":
+            # configuration values: every setter at its limits, payload lengths around the maximum
+            for n in (0, 1, 2, 127, 128, (1 << 31) - 2, (1 << 31) - 1, 1 << 31, (1 << 31) + 1, M32 - 1):
+                bump(stats, "setter_edge_cases")
+                yield ["ser.new", f"ser.setcs {n} 0", f"ser.msg 8 1 0 0 0 {GC.payload_tok(1, 300)}", "ser.msg 9 1 5 0 0 -",
+                       "des.new", "des.feedpk 111 7", "!chunk.rt 111 7", "!chunk.nonempty"]
+                yield ["des.new", f"des.setcs {n}", "des.feed all 0500000000000308010000000a0b0c", "des.feed 1 0500000000000308010000000a0b0c"]
+            for ln in ((16777214, 16777215, 16777216) if tier == "thorough" else (16777216,)):
+                bump(stats, "payload_limit_cases")
+                yield ["ser.new", "ser.setcs 65536 0", f"ser.msg 9 1 0 0 0 ab*{ln}"] + (["des.new", "des.feedpk 11 all", "!chunk.rt 11 100000"] if ln <= 16777215 else [])
+        # seed-independent small-scope part
+        alpha = GC.small_alphabet()
+        stats["small_alphabet"] = len(alpha)
+        maxlen = 3 if tier == "thorough" else 2
+        k = 0
+        for L in range(1, 4):
+            for seq in itertools.product(alpha, repeat=L):
+                k += 1
+                if L > maxlen and k % 5 != 0:
+                    continue
+                if pid == "C19" and L > 1:
+                    continue
+                ops, drops = GC.small_case(seq)
+                bump(stats, f"small_scope_len{L}")
+                yield ops + self.tail_ops(pid, rng, drops, exhaustive_masks=True, total=600)
+        # seeded random histories
+        n = 1200 if tier == "quick" else 12000
+        for _ in range(n):
+            ops, sim = GC.gen_ser_ops(rng, rng.range(1, 12), stats, allow_raw_type1=False)
+            bump(stats, "random_histories")
+            yield ops + self.tail_ops(pid, rng, sim.drops, total=sim.total)
+        # raw type-1 payloads handed to serialize (excluded from the theorems' hypothesis; model ≡ code still checked)
+        if pid in ("C01", "C07"):
+            for _ in range(60):
+                ops, sim = GC.gen_ser_ops(rng, rng.range(2, 6), stats, allow_raw_type1=True)
+                yield ops + ["des.new", f"des.feedpk {'1' * len(sim.drops)} all"]
+
+    def nontrivial(self, ops):
+        return sum(1 for o in ops if o.startswith("ser.msg") or o.startswith("ser.setcs")) >= 2
+
+
+FAMILIES = {f.name: f for f in [TimeFamily(), AmfFamily(), AmfAdvFamily(), ChunkFamily()]}
 
 
 # ------------------------------------------------------------------------------- known findings
